@@ -5,8 +5,8 @@
 //! Stand-ins: `lru` (fixed-slot), `vcoll`, `tracing`.
 //! @needs: mutable signed_announce
 use super::*;
-use crate::common::mutable::kani_h as mh;
-use crate::common::signed_announce::kani_h as sh;
+use crate::common::kani_h_mutable as mh;
+use crate::common::kani_h_signed_announce as sh;
 use crate::verif_env::{clock, cut, cut_reached, rnd, uf};
 
 #[derive(Debug, Clone)]
